@@ -19,6 +19,7 @@ RULE = ("collections of 1..5 rules (detection names from a pool with keyword-pre
         "validation before vs after conversion; distinct = distinct (collection, validator order); non-trivial = >= 2 rules"
         "; list-valued attributes in unsorted order; verbatim copies of a rule under two directories")
 RULE += '; round 4: validation after a conversion whose pipeline adds a condition and renames fields: reference checks exact for the rewritten rules (second Lean request)'
+RULE += '; round 4: exclusion tables with the key None (rules without id)'
 ASSUMPTIONS = [
     "validators needing network data (MITRE ATT&CK / D3FEND tag validators) are excluded from the validator pool",
     "issues are compared as (class, set of rule titles, extra fields) multisets",
